@@ -106,6 +106,35 @@ def record(name, seed, rng, tier):
             for ao in [a_first, a_order, a_first, a_cap, rng.choice([a_order, a_cap])]:
                 steps.append({"op": "estimate", "estimator": ests[0], "tomo": t, "dataset": d, "loss": loss, "algo": algo, "loss_option": None, "algo_option": None,
                               "loss_option_id": l_ident, "algo_option_id": ao})
+    elif name == "basis_pair":
+        # two 1-qubit systems of equal dimension over different bases (computational vs the pool's normalised Pauli basis):
+        # table-backed queries on one, then on the other, in both orders, with table drops in between
+        def add(rec):
+            pool.append(rec)
+            pool0.append(rec)
+            return len(pool) - 1
+
+        flags = {"is_physicality_required": False, "is_estimation_object": True, "on_para_eq_constraint": True, "on_algo_eq_constraint": True, "on_algo_ineq_constraint": True,
+                 "mode_proj_order": "eq_ineq", "eps_proj_physical": None, "eps_truncate_imaginary_part": None}
+        born = pool[[i for i, r in enumerate(pool) if r["kind"] == "state"][0]].get("born_atol")
+        c2 = add({"kind": "csys", "mode": "qubit", "num": 1, "ids": [5], "dim": 2, "basis": "comp"})
+        a = rng.uniform(0.2, 0.8)
+        comp = [add({"kind": "state", "csys": c2, "vec": [a, 0.0, 0.0, 1.0 - a], "flags": dict(flags), "born_atol": born}),
+                add({"kind": "gate", "csys": c2, "hs": np.eye(4), "flags": dict(flags), "born_atol": born})]
+        pauli = [i for i, r in enumerate(pool) if r["kind"] in ("state", "gate") and r["csys"] == 0]
+
+        def q(i):
+            names = {"state": ["to_density_matrix_with_sparsity", "is_physical", "calc_eigenvalues"], "gate": ["to_choi_matrix_with_sparsity", "to_choi_matrix_with_dict", "to_kraus_matrices", "is_cp"]}
+            return {"op": "m", "on": i, "name": rng.choice(names[pool[i]["kind"]])}
+
+        first, second = (comp, pauli) if seed % 2 == 0 else (pauli, comp)
+        for _ in range(3):
+            steps.append(q(rng.choice(first)))
+        for _ in range(4):
+            steps.append(q(rng.choice(second)))
+        steps.append({"op": "cache", "csys": 0, "action": "delete", "table": rng.choice(ops.CACHE_TABLES)})
+        for _ in range(4):
+            steps.append(q(rng.choice(first + second)))
     else:
         raise ValueError(name)
     return {"engine": "histsim", "seed": seed, "tier": tier, "opts": {"directed": name}, "pool": to_jsonable(pool0), "steps": to_jsonable(steps)}
